@@ -734,6 +734,10 @@ pub enum Group {
     Span { count: usize, span: usize },
     /// `count` ones at seeded random gaps with the given mean
     Random { count: usize, mean_gap: usize },
+    /// `count` ones (count > 33): the last 32 of them occupy the 33 positions `tail_at ..= tail_at + 32` (relative to the
+    /// first one) except position `tail_at + hole`, the others are spread evenly before `tail_at`. With count = 1024 the
+    /// last sub-block of the block starts at offset `tail_at`: offsets next to the 16-bit limit when tail_at + 32 = 65535.
+    LateTail { count: usize, tail_at: usize, hole: usize },
 }
 
 #[derive(Clone, Debug)]
@@ -778,6 +782,13 @@ impl GroupSpec {
                     }
                 }
                 Group::Random { .. } => 'r',
+                Group::LateTail { tail_at, .. } => {
+                    if tail_at + 32 < 65536 {
+                        'l'
+                    } else {
+                        'L'
+                    }
+                }
             });
         }
         s
@@ -815,6 +826,19 @@ pub fn gen_group_positions(spec: &GroupSpec) -> Vec<usize> {
                     }
                     pos.push(cur);
                 }
+            }
+            Group::LateTail { count, tail_at, hole } => {
+                assert!(count > 33 && tail_at >= count - 32 && (1..32).contains(&hole));
+                let head = count - 32;
+                for j in 0..head {
+                    pos.push(cur + (j as u128 * (tail_at as u128 - 1) / head as u128) as usize);
+                }
+                for j in 0..=32usize {
+                    if j != hole {
+                        pos.push(cur + tail_at + j);
+                    }
+                }
+                cur += tail_at + 32;
             }
         }
         cur += spec.gap.max(1);
